@@ -1,7 +1,7 @@
 #!/bin/bash
 # tools/seeded_confirm_only.sh <PROP> <n> : parse RUN<n>.md and confirm in the sub-agent's worktree (no /repo access)
 ID="$1"; N="$2"
-SRC=/tmp/seeded-out/$ID; WT=/tmp/wt-$ID
+RD=${SEED_ROUND:-}; SRC=/tmp/seeded-out$RD/$ID; WT=/tmp/wt$RD-$ID
 RUN=$SRC/RUN$N.md
 DEMO=$(ls $SRC/demo$N.* 2>/dev/null | head -1)
 DEST=$(grep -oE "cp +[^ ]*demo$N[^ ]* +[^ ]+" $RUN | head -1 | awk '{print $NF}')
